@@ -68,12 +68,15 @@ package jschema
 //@   at call:Data.after assume notPooled(ret0)
 
 //@ func (*exampleBuilder).buildExampleForObjectNode
-//@   property C10
+//@   property C10 C06
 //@   requires b != nil
 //@   may_panic
 //@   modifies pool_state(), mapof(b.processedTypes)
 //@   ensures result1 == nil ==> notPooled(result0)
 //@   loop#1 invariant -1 <= rangeindex && rangeindex < len(children) && buf != nil && pool_buffer(buf) && pool_held(buf) && b != nil
+//-  (C06, the example is JSON: members that have no example are skipped, and the closing bracket never follows a separator)
+//@   loop#1 invariant !buf_sep(buf)
+//@   at call:WriteByte assert (arg1 == 125 || arg1 == 93) ==> !buf_sep(arg0)
 //@   loop#1 decreases len(children) - rangeindex
 
 //@ func (*exampleBuilder).buildObjectKey
@@ -84,12 +87,15 @@ package jschema
 //@   ensures result1 == nil ==> notPooled(result0)
 
 //@ func (*exampleBuilder).buildExampleForArrayNode
-//@   property C10
+//@   property C10 C06
 //@   requires b != nil
 //@   may_panic
 //@   modifies pool_state(), mapof(b.processedTypes)
 //@   ensures result1 == nil ==> notPooled(result0)
 //@   loop#1 invariant -1 <= rangeindex && rangeindex < len(children) && buf != nil && pool_buffer(buf) && pool_held(buf) && b != nil
+//-  (C06, the example is JSON: members that have no example are skipped, and the closing bracket never follows a separator)
+//@   loop#1 invariant !buf_sep(buf)
+//@   at call:WriteByte assert (arg1 == 125 || arg1 == 93) ==> !buf_sep(arg0)
 //@   loop#1 decreases len(children) - rangeindex
 
 // (C06, termination of Example(): a type is expanded only while fewer than two expansions of it are open, and the
